@@ -97,7 +97,16 @@ def run(ctx):
     # the driver insists on a replacement having happened
     asserts = [n for n in iter_own(spy.node) if isinstance(n, ast.Assert) and "replaced" in norm(n.test)]
     ctx.ob("C13.visitor", spy, "assert rewrite_at_query.replaced", bool(asserts), "" if asserts else "a failed replacement would pass silently", line=spy.node.lineno)
-    # ---------------------------------------------------------------- once
+    _once(ctx, index)
+    # --------------------------------------------------------------- index
+    _index_spaces(ctx, index)
+    _receiver_shift_agreement(ctx, index)
+    _wrap_unconditional(ctx, index, spy, facts_at)
+    _lookups(ctx, index, spy)
+
+
+def _once(ctx, index):
+    """replace-once typestate of RewriteAtQuery (shared with C12: code outside the named target is unchanged)"""
     raq = "cdd.shared.ast_utils.RewriteAtQuery"
     ctx.need(raq in index.classes, "RewriteAtQuery vanished")
     n_sites = 0
@@ -143,11 +152,6 @@ def run(ctx):
             )
     ctx.count("replacement_sites", n_sites)
     ctx.floor("replacement sites in RewriteAtQuery", n_sites, 2)
-    # --------------------------------------------------------------- index
-    _index_spaces(ctx, index)
-    _receiver_shift_agreement(ctx, index)
-    _wrap_unconditional(ctx, index, spy, facts_at)
-    _lookups(ctx, index, spy)
 
 
 def _cond_norm(e, fvar):
